@@ -137,7 +137,8 @@ Definition remap (p : pulse) (order : list nat) (dq : nat) (mapping : option (li
       n_coeffs := sel [] (n_coeffs p) nidx;
       p_dt := p_dt p;
       btype := btype p;
-      p_t := p_t p;
+      (* cache_control_matrix -> cache_total_phases -> tau -> t: the times are computed if they were not cached *)
+      p_t := if has_cm && negb (cached (p_t p)) then Fresh else p_t p;
       p_tau := if has_cm then Fresh else p_tau p;
       eigvals := if need_diag then Fresh else smap (map (tt1 dq N order)) (eigvals p);
       eigvecs := if need_diag then Fresh else smap (map T2) (eigvecs p);
